@@ -128,6 +128,7 @@ def directed(tuftool, replay):
         for r in ROLES: t('set-threshold', old, r, '1')
         t('sign', old, '-k', C)
         t('init', new); t('add-key', new, '-k', A, '-r', 'root', '-r', 'snapshot', '-r', 'targets', '-r', 'timestamp'); t('add-key', new, '-k', B, '-r', 'root')
+        t('add-key', new, '-k', C, '-r', 'targets')      # the old root key stays in the new root's key table (for another role): its signature is still not a root signature
         t('set-threshold', new, 'root', '2')
         for r in ROLES[1:]: t('set-threshold', new, r, '1')
         t('sign', new, '-k', C, '--cross-sign', old, '-i')
